@@ -140,10 +140,10 @@ private theorem fieldLoop_equiv {reg : Reg} {recL : Ty → Lit → R} {recJ : Ty
         simp [Except.toOption]
 
 /-- bodies of the two functions agree on a literal spelling (type not non-null) -/
-private theorem core_equiv {reg : Reg} (hagree : CustomAgree reg) {recL : Ty → Lit → R} {recJ : Ty → JV → R}
+private theorem core_equiv {vars : Option (List (String × PV))} {reg : Reg} (hagree : CustomAgree reg) {recL : Ty → Lit → R} {recJ : Ty → JV → R}
     (hrec : ∀ ty j l, AstOfJson reg ty j l → (recL ty l).toOption = (recJ ty j).toOption)
     {t : Ty} {j : JV} {l : Lit} (h : AstOfJson reg t j l) (hnn : t.isNonNull = false) :
-    (vfaCore reg recL t l).toOption = (coerceCore reg recJ t j).toOption := by
+    (vfaCore vars reg recL t l).toOption = (coerceCore reg recJ t j).toOption := by
   have hadmI : ∀ k, admits .int (.int k) = true := fun k => by simp only [admits, kindName, litKind]; decide
   have hadmFI : ∀ k, admits .float (.int k) = true := fun k => by simp only [admits, kindName, litKind]; decide
   have hadmFF : ∀ s, admits .float (.float s) = true := fun s => by simp only [admits, kindName, litKind]; decide
@@ -169,7 +169,7 @@ private theorem core_equiv {reg : Reg} (hagree : CustomAgree reg) {recL : Ty →
   | idStr hk => exact congrArg _ (by simp [vfaCore, coerceCore, Lit.isNull, JV.isNull, hk, isScalarLit, parseLiteral, hadmIS, parseId, pyStr])
   | idInt hk => exact congrArg _ (by simp [vfaCore, coerceCore, Lit.isNull, JV.isNull, hk, isScalarLit, parseLiteral, hadmII, parseId, pyStr])
   | custom hk hs =>
-    have := hagree _ _ _ hk hs
+    have := hagree _ (vars.getD []) _ _ hk hs
     cases hs <;> simpa [vfaCore, coerceCore, Lit.isNull, JV.isNull, hk, isScalarLit, litAdmitted] using this
   | enum hk => exact congrArg _ (by simp [vfaCore, coerceCore, Lit.isNull, JV.isNull, hk])
   | list hL =>
@@ -215,7 +215,7 @@ theorem literal_variable_equiv (reg : Reg) (hagree : CustomAgree reg) (vars : Op
     intro ty j l h
     obtain ⟨hnull, hnv, _⟩ := spelling_shape _ _ _ h
     have hv : valueFromAst reg vars (fuel + 1) ty l =
-        if ty.isNonNull && l.isNull then .error .coercion else vfaCore reg (valueFromAst reg vars fuel) (stripNN ty) l := by
+        if ty.isNonNull && l.isNull then .error .coercion else vfaCore vars reg (valueFromAst reg vars fuel) (stripNN ty) l := by
       cases l <;> simp_all [valueFromAst]
     rw [hv, hnull]
     simp only [coerceValue]
